@@ -106,10 +106,35 @@ def payload_of(case):
     return n, t, batch, M, Cc
 
 
+@functools.lru_cache(maxsize=64)
+def seeded_stored(n, t, batch, seed, inter):
+    return stored_from_canonical(seeded_payload(n, t, batch, seed)[1], n, t, inter)
+
+
+@functools.lru_cache(maxsize=64)
+def seeded_tables(n, t, batch, seed):
+    M, Cc = seeded_payload(n, t, batch, seed)
+    return label_tables(n, t, batch, Cc)
+
+
+def label_tables(n, t, batch, Cc):
+    """L labels every output of every batch member by its row in the block-diagonal joint covariance Cfull."""
+    B = 1
+    for b in batch:
+        B *= b
+    N = n * t
+    L = torch.arange(B * N).reshape(*batch, n, t)
+    Cfull = torch.block_diag(*Cc.reshape(B, N, N))
+    return L, Cfull
+
+
 def build(case, ctx, inter=None, what="construct"):
     n, t, batch, M, Cc = payload_of(case)
     inter = bool(case["inter"]) if inter is None else inter
-    S = stored_from_canonical(Cc, n, t, inter)
+    if "cov" in case:
+        S = stored_from_canonical(Cc, n, t, inter)
+    else:
+        S = seeded_stored(n, t, batch, int(case.get("payload", 0)), inter)
     with ctx.observing(what):
         d = MT(M.clone(), DenseLinearOperator(S.clone()) if case.get("lazy") else S.clone(), interleaved=inter)
     return d, n, t, batch, M, Cc
@@ -413,7 +438,7 @@ def expand_ast(ast, dim):
     return ast + [FULL] * (dim - len(ast))
 
 
-def index_oracle(ast, bare, n, t, batch, M, Cc):
+def index_oracle(ast, bare, n, t, batch, M, Cc, tables=None):
     """-> (python index, expected mean, expected covariance, event rank 0/1/2, kinds)."""
     dim = len(batch) + 2
     full = expand_ast(ast, dim)
@@ -424,16 +449,11 @@ def index_oracle(ast, bare, n, t, batch, M, Cc):
     if any(is_t(k) for k in bk) and (is_t(rk) or is_t(ck)):
         raise Discard("index tensor in a batch position and in an event position (no single reading of 'marginal')")
     idx = to_index(ast, bare)
-    B = 1
-    for b in batch:
-        B *= b
-    N = n * t
-    L = torch.arange(B * N).reshape(*batch, n, t)
+    L, Cfull = tables if tables is not None else label_tables(n, t, batch, Cc)
     Y = L[idx]
     want_mean = M[idx]
     if Y.dim() == 0 or Y.numel() == 0:
         raise Discard("scalar or empty selection")
-    Cfull = torch.block_diag(*Cc.reshape(B, N, N))
     if is_i(rk) and is_i(ck):
         rank = 0
         want_cov = torch.diag_embed(Cfull.diagonal()[Y])
@@ -451,12 +471,20 @@ def observe_indexed(d, idx, ctx, name="d[idx]"):
         is_mt = isinstance(s, MT)
         mean = s.mean.clone()
         cov = s.covariance_matrix.clone()
-        var = s.variance.clone()
         if is_mt:
             n2, t2 = mean.shape[-2:]
             if cov.shape[-1] == n2 * t2:
                 cov = canonical_from_stored(cov, n2, t2, bool(s._interleaved))
-    return is_mt, mean, cov, var
+    return is_mt, mean, cov, s
+
+
+def coarse_index_class(kinds):
+    """Coarse class of an (expanded) index for bucketing: kind of the point x task index, whether anything is negative
+    or a slice starts past 0, and the kind of the batch index."""
+    K = lambda k: "int" if k.endswith("int") else ("tensor" if k.endswith("tensor") else "slice")  # noqa: E731
+    shifted = any(k in ("-int", "-tensor", "slice+") for k in kinds[-2:])
+    b = f"|batch:{K(kinds[0])}" if len(kinds) > 2 else ""
+    return f"{K(kinds[-2])}x{K(kinds[-1])}|{'negative-or-shifted' if shifted else 'plain'}{b}"
 
 
 def index_nontrivial(ast, n, t, inter):
@@ -477,20 +505,24 @@ def run_index(case, ctx: Ctx):
     n, t, batch, M, Cc = payload_of(case)
     inter = bool(case["inter"])
     ast, bare = case["idx"], bool(case.get("bare", False))
-    idx, want_mean, want_cov, rank, kinds = index_oracle(ast, bare, n, t, batch, M, Cc)
-    ctx.cls = base_cls(n, t, batch, inter) + "|" + ",".join(kinds)
+    tables = None if "cov" in case else seeded_tables(n, t, batch, int(case.get("payload", 0)))
+    idx, want_mean, want_cov, rank, kinds = index_oracle(ast, bare, n, t, batch, M, Cc, tables)
+    ctx.cls = f"{'inter' if inter else 'noninter'}|{coarse_index_class(kinds)}"
     common_labels(ctx, n, t, batch, inter, case.get("lazy"))
     ctx.label(f"idx={','.join(kinds[-2:])}", f"event_rank={rank}", "ellipsis" if "..." in ast else f"len(idx)={len(ast)}")
     if batch:
         ctx.label(f"batch_idx={kinds[0]}")
     ctx.set_nontrivial(index_nontrivial(ast, n, t, inter))
     d, *_ = build(case, ctx)
-    is_mt, mean, cov, var = observe_indexed(d, idx, ctx)
+    is_mt, mean, cov, s = observe_indexed(d, idx, ctx)
     ctx.close("d[idx].mean = mean[idx]", mean, want_mean, rtol=0, atol=0)
     ctx.check("result type", is_mt == (rank == 2),
               f"got {'MultitaskMultivariateNormal' if is_mt else 'MultivariateNormal'} for an index with kinds {kinds}")
     if ctx.close("d[idx].covariance = C[sel, sel]", cov, want_cov, rtol=1e-12, atol=1e-12):
-        ctx.close("d[idx].variance", var.reshape(*want_cov.shape[:-1]), want_cov.diagonal(dim1=-1, dim2=-2), rtol=1e-12, atol=1e-12)
+        # the result is a coherent distribution object: its own variance is the diagonal, laid out like its mean
+        with ctx.observing("d[idx].variance"):
+            var = s.variance.clone()
+        ctx.close("d[idx].variance", var, want_cov.diagonal(dim1=-1, dim2=-2).reshape(want_mean.shape), rtol=1e-12, atol=1e-12)
 
 
 # ---- index families ----------------------------------------------------------------------------------
@@ -557,7 +589,7 @@ def enumerate_index(tier):
     for (n, t) in shapes:
         fn, ft, fb = family(n), family(t), family(2)
         rn, rt, rb = reduced_family(n), reduced_family(t), reduced_family(2)
-        big = thorough and (n, t) in ((3, 2), (2, 3))
+        big = thorough and (n, t) == (3, 2)
         for inter in (True, False):
             seen = set()
             out = []
@@ -609,7 +641,10 @@ def enumerate_index(tier):
                 mk((2,), [b, "..."])
             yield from out
             out = []
-            for b in (fb if big else rb):  # reduced batch family x complete (r, c)
+            # one batch index of each kind (quick) / the reduced family (thorough) / the complete one (thorough, 3x2)
+            # x the complete (r, c) product
+            kinds3 = [{"int": -1}, {"slice": [1, None, None]}, {"tensor": [1, 0]}]
+            for b in (fb if big else (rb if thorough else kinds3)):
                 for r in fn:
                     for c in ft:
                         mk((2,), [b, r, c])
@@ -626,12 +661,13 @@ def enumerate_index(tier):
 
 
 EXH_NOTE = ("index expressions on a 3x2 instance (thorough: also 2x3, 4x3, 1x2, 2x2), both layouts, restricted to non-empty "
-            "non-scalar results: no batch - the complete product (r, c) of the per-dimension family {ints -size..size-1; slices "
-            "with start, stop in {None,0,1,2,-1,-2,size,size+3,-size-3} x step in {None,1,2}; index tensors [0], [size-1,0], "
-            "[0,0,size-1], [-1,0]}, every (r,) (tuple and bare), (r, ...), (..., c), (...), () and the three ellipsis placements "
-            "around a reduced 10-element family (thorough: the complete one); batch (2,) - complete batch family x reduced (r, c) "
-            "family, reduced batch family x complete (r, c) product (thorough: complete x complete), batch-only and ellipsis forms; "
-            "index tensors simultaneously in the batch and an event position are excluded")
+            "non-scalar results. Per-dimension family F(size) = {ints -size..size-1; slices with start, stop in "
+            "{None,0,1,2,-1,-2,size,size+3,-size-3} x step in {None,1,2}; index tensors [0], [size-1,0], [0,0,size-1], [-1,0]}; "
+            "reduced family R = 10 representatives of every kind. No batch: the complete product (r, c) in F(n) x F(t), every (r,) "
+            "(tuple and bare), (r, ...), (..., c), (...), (), and (..., r, c), (r, ..., c), (r, c, ...) over R x R (thorough: F x F). "
+            "Batch (2,): (b, r, c) over F(2) x R x R and over {-1, 1:, tensor [1,0]} x F(n) x F(t) (thorough: R x F x F; F x F x F on "
+            "3x2), (b,), bare b, (b, ...), (b, r), (b, r, ...), (b, ..., c), (..., r, c), (..., c), (...), (). Index tensors "
+            "simultaneously in the batch and an event position are excluded")
 
 
 # ---- sampled index expressions -----------------------------------------------------------------------
@@ -731,7 +767,7 @@ def run_layouts_agree(case, ctx: Ctx):
     # indexing
     ast, bare = case["idx"], bool(case.get("bare", False))
     idx, want_mean, _, rank, kinds = index_oracle(ast, bare, n, t, batch, M, Cc)
-    ctx.cls += "|" + ",".join(kinds)
+    ctx.cls = coarse_index_class(kinds)
     ctx.label(f"idx={','.join(kinds[-2:])}")
     r1 = observe_indexed(d1, idx, ctx, name="d[idx][interleaved]")
     r2 = observe_indexed(d2, idx, ctx, name="d[idx][non-interleaved]")
